@@ -483,6 +483,10 @@ def call(eng, st, node, allow_raise):
         con = C.lookup(canon.replace('.', ':', 1) if ':' not in canon and False else canon)
         if con is None and ':' not in canon:
             con = C.lookup(canon)
+        # the caller's contract may name the variant of the callee's contract it relies on
+        want = (eng.c.callee_variants or {}).get(canon.split(':')[-1].split('.')[-1])
+        if want is not None and C.lookup(canon, want) is not None:
+            con = C.lookup(canon, want)
         if con is not None:
             return apply_contract(eng, st, node, con, allow_raise)
         if canon in RAISING_MODELS:
@@ -1582,10 +1586,51 @@ def m_set_node_attributes(eng, st, node):
     return lift(None)
 
 
+def comb_ufs(list_ty):
+    """Index functions of itertools.combinations(L, 2): position -> (i, j) and (i, j) -> position."""
+    cs = TList(TTuple(list_ty.elem, list_ty.elem)).sort()
+    return (z3.Function('comb_fst_' + list_ty.name, cs, z3.IntSort(), z3.IntSort()),
+            z3.Function('comb_snd_' + list_ty.name, cs, z3.IntSort(), z3.IntSort()),
+            z3.Function('comb_pos_' + list_ty.name, cs, z3.IntSort(), z3.IntSort(), z3.IntSort()))
+
+
+def m_combinations(eng, st, node):
+    """itertools.combinations(L, r=2) as a list C of pairs: C[p] == (L[fst p], L[snd p]) with fst p < snd p, and every
+    index pair i < j occurs at position pos(i, j).  (Trusted; the order of the pairs is left open.)"""
+    eng.assumptions.add('itertools.combinations(L, 2) yields exactly the pairs (L[i], L[j]) with i < j, each once')
+    seq = lift(eng.ev(node.args[0], st))
+    r = None
+    if len(node.args) > 1:
+        r = eng.ev(node.args[1], st)
+    for k in node.keywords:
+        if k.arg == 'r':
+            r = eng.ev(k.value, st)
+    r = lift(r) if r is not None else None
+    if r is None or not z3.is_int_value(z3.simplify(r.t)) or z3.simplify(r.t).as_long() != 2 or not isinstance(seq.ty, TList):
+        raise Unsupported('itertools.combinations other than (list, 2)')
+    pair = TTuple(seq.ty.elem, seq.ty.elem)
+    cty = TList(pair)
+    c = fresh(cty, 'comb')
+    fst, snd, pos = comb_ufs(seq.ty)
+    L, n = ops.list_arr(seq), ops.list_len(seq)
+    C, m = cty.arr(c.t), cty.length(c.t)
+    q, i, j = z3.Int(fresh_name('cp')), z3.Int(fresh_name('ci')), z3.Int(fresh_name('cj'))
+    st.assume(m >= 0,
+              z3.ForAll([q], z3.Implies(z3.And(0 <= q, q < m),
+                                        z3.And(0 <= fst(c.t, q), fst(c.t, q) < snd(c.t, q), snd(c.t, q) < n,
+                                               C[q] == pair.mk(L[fst(c.t, q)], L[snd(c.t, q)]),
+                                               pos(c.t, fst(c.t, q), snd(c.t, q)) == q)), patterns=[C[q]]),
+              z3.ForAll([i, j], z3.Implies(z3.And(0 <= i, i < j, j < n),
+                                           z3.And(0 <= pos(c.t, i, j), pos(c.t, i, j) < m, fst(c.t, pos(c.t, i, j)) == i,
+                                                  snd(c.t, pos(c.t, i, j)) == j)), patterns=[pos(c.t, i, j)]))
+    return c
+
+
 RAISING_MODELS = {'random.choice': m_random_choice, 'random.choices': m_random_choices}
 
 CANON_MODELS = {
     'networkx.set_node_attributes': m_set_node_attributes,
+    'itertools.combinations': m_combinations,
     'collections:defaultdict': m_defaultdict,
     'numpy.array': m_np_array,
     'networkx.Graph': m_nx_graph,
